@@ -1,7 +1,7 @@
 (* Correspondence and monitor for C01, evaluated on cases written by harness/props/c01.py. *)
 From Coq Require Import NArith List Bool Arith.
 Import ListNotations.
-From HV Require Export lib.Harness model.Validity model.Builder spec.BuilderWFS.
+From HV Require Export lib.Harness model.Validity model.Builder spec.BuilderWFS model.Builder2 spec.Builder2WFS.
 Local Open Scope N_scope.
 
 (* ------------------------------------------------------------------ equality of literals *)
@@ -51,18 +51,23 @@ Definition graph_eqb (a b : graph) : bool :=
    CNeg: a valid document with rule k violated by mutation (self-test of the transcription).
    CSkip: the builders raised (reported separately by the harness).
    CPrem: the type table and the program of a CProg case alone: do the decidable premises of the theorems of
-   props/C01.v hold of the programs the correspondence is sampled on? *)
+   props/C01.v hold of the programs the correspondence is sampled on?
+   CProg2 (third pass): as CProg for a program inside the extended builder model of model/Builder2.v (TailLoop,
+   Conditional, insert_*, CallIndirect; Dfg / TailLoop / Conditional roots). *)
 Inductive case :=
 | CDoc (h : vhugr) (same : bool) (fake : bool)
 | CProg (p : prog) (h : vhugr) (same : bool) (fake : bool)
 | CNeg (h : vhugr) (k : N)
 | CSkip
-| CPrem (tys : list tyinfo) (p : prog).
+| CPrem (tys : list tyinfo) (p : prog)
+| CProg2 (p : prog2) (h : vhugr) (same : bool) (fake : bool)
+| CPrem2 (tys : list tyinfo) (p : prog2).
 
 (* the model run on the program gives the implementation's document *)
 Definition corr (c : case) : bool :=
   match c with
   | CProg p h _ _ => match run (v_tys h) p with Ok g => graph_eqb g (v_main h) | Err _ => false end
+  | CProg2 p h _ _ => match run2 (v_tys h) p with Ok g => graph_eqb g (v_main h) | Err _ => false end
   | _ => true
   end.
 
@@ -73,12 +78,16 @@ Definition mon (c : case) : bool :=
   | CNeg h k => negb (match nthN (rules (v_tys h) (v_subs h) (v_main h)) k with Some b => b | None => true end)
   | CSkip => true
   | CPrem _ _ => true
+  | CProg2 _ h same _ => same && valid h
+  | CPrem2 _ _ => true
   end.
 
 (* the premises of C01_builder_valid (spec/BuilderWFS.v: wf_prog; and the type table) on an in-model program *)
 Definition prem (c : case) : bool :=
   match c with
   | CPrem tys p => wf_prog tys p && r_table tys
+  (* the premises of the theorems about the extended language (spec/Builder2WFS.v) *)
+  | CPrem2 tys p => croot_ok p && wt_prog2 tys p && r_table tys
   | _ => true
   end.
 
@@ -87,5 +96,6 @@ Definition agree (c : case) : bool :=
   match c with
   | CDoc h _ fake => Bool.eqb (valid h) fake
   | CProg _ h _ fake => Bool.eqb (valid h) fake
+  | CProg2 _ h _ fake => Bool.eqb (valid h) fake
   | _ => true
   end.
